@@ -16,7 +16,8 @@ RULE = ('random histories of 3..14 public calls (estimation, timescales, CK test
         'same value. Non-trivial: the history repeats a deterministic call after other calls and contains '
         'a randomised call.'
         ' Added classes: returned arrays overwritten before the repeat call, Fortran-ordered / single-row tables, 120-state matrices, shared StateTraj objects in similarity and CK test, the junction scenario (the same frames joined are sampled first; the step that exists only across the boundary must never be taken afterwards).'
-        ' Later: parameters handed over as arrays (lag times, basins), a row-stochastic matrix with a negative entry, a lumped object whose projection has negative entries in the sampling calls, repeated estimates on > 100000 frames in several trajectories.')
+        ' Later: parameters handed over as arrays (lag times, basins), a row-stochastic matrix with a negative entry, a lumped object whose projection has negative entries in the sampling calls, repeated estimates on > 100000 frames in several trajectories.'
+        ' Fifth/sixth batch: re-wrapping lumped objects with another `positive`, ck_test beyond the data with heap churn.')
 TRUSTED = ['snapshots observe buffers through NumPy (tobytes); numba generator seeded through a jitted helper']
 ASSUMPTIONS = []
 BATCH = 40
